@@ -33,3 +33,28 @@ func StringNGuard(name string, n, max int) string {
 	h := sh{unsafe.Pointer(&dst[0]), n}
 	return *(*string)(unsafe.Pointer(&h))
 }
+
+// GuardString places a copy of s so that it ends exactly at a page boundary followed by an
+// inaccessible page (natively); under the engine it is s itself.
+func GuardString(s string) string {
+	n := len(s)
+	if n == 0 {
+		return ""
+	}
+	ps := syscall.Getpagesize()
+	mem, err := syscall.Mmap(-1, 0, 2*ps, syscall.PROT_READ|syscall.PROT_WRITE, syscall.MAP_ANON|syscall.MAP_PRIVATE)
+	if err != nil {
+		panic("zzverif: mmap: " + err.Error())
+	}
+	if err := syscall.Mprotect(mem[ps:], syscall.PROT_NONE); err != nil {
+		panic("zzverif: mprotect: " + err.Error())
+	}
+	dst := mem[ps-n : ps]
+	copy(dst, s)
+	type sh struct {
+		p unsafe.Pointer
+		n int
+	}
+	h := sh{unsafe.Pointer(&dst[0]), n}
+	return *(*string)(unsafe.Pointer(&h))
+}
